@@ -325,6 +325,20 @@ func (e *Engine) parseType(s string, p *packages.Package) (types.Type, error) {
 	if p != nil {
 		pkg = p.Types
 	}
+	if strings.HasPrefix(s, "*") {
+		t, err := e.parseType(s[1:], p)
+		if err != nil {
+			return nil, err
+		}
+		return types.NewPointer(t), nil
+	}
+	if strings.HasPrefix(s, "[]") {
+		t, err := e.parseType(s[2:], p)
+		if err != nil {
+			return nil, err
+		}
+		return types.NewSlice(t), nil
+	}
 	// pkg.Name: imports live in file scopes, which types.Eval does not see at NoPos
 	if i := strings.Index(s, "."); i > 0 && !strings.ContainsAny(s, "[]*( ") {
 		for _, q := range e.PkgByPath {
